@@ -41,9 +41,10 @@ try:
 finally:
     sh(f"git -C /repo worktree remove --force {wt}")
 dst = f"/verif/seeded/{pid}-{name}"
-shutil.rmtree(dst, ignore_errors=True)
-os.makedirs(dst)
-for f in os.listdir(src):
+if os.path.realpath(src) != os.path.realpath(dst):
+    shutil.rmtree(dst, ignore_errors=True)
+os.makedirs(dst, exist_ok=True)
+for f in ([] if os.path.realpath(src) == os.path.realpath(dst) else os.listdir(src)):
     if f in ("PROPERTY.txt", "PROMPT.txt", "__pycache__"):
         continue
     p = os.path.join(src, f)
